@@ -120,9 +120,12 @@ def exitAlt (r : RState) : RState × List TermOp :=
   if !r.altActive then (r, [])
   else (({ r with altActive := false } : RState).repaint, [.decrst 1049, cursorOp r.cursorHidden])
 
+/-- `stop()`: the final flush, then the cursor line is erased — and the line cache is
+invalidated, because that line is no longer on screen (a later render, after a restart or when
+the program quits while the terminal is released, must not skip it as unchanged) -/
 def stop (r : RState) : RState × List TermOp :=
   let (r', ops) := flush r
-  (r', ops ++ [.el2, .cr])
+  (r'.repaint, ops ++ [.el2, .cr])
 
 def kill (r : RState) : RState × List TermOp := (r, [.el2, .cr])
 
